@@ -165,6 +165,7 @@ def _r2(run, prog, eff):
                              "something else triggers a rebuild" % (ci.name, name, hit, b,
                                                                      ' (it patches %s in place instead)' % patched if patched else ''))
     run.floor('C01-R2', 12)
+    _one_sided_builder_stores(run, prog)
     # builders must reset the derived state before any source-dependent early return
     run.describe('C01-R2b', 'a builder clears the old derived objects before any early return')
     for q, spec in NODES.items():
@@ -199,6 +200,59 @@ def _r2(run, prog, eff):
                     run.fail('C01-R2b', '%s|%s|%s|early-return-keeps-old-state' % (ci.mod.name, ci.name, b), ci.mod.relpath, r.lineno,
                              "%s.%s returns early (%s) without clearing the materials built before: after the models, plasma or spectrum "
                              "are removed the old materials keep emitting" % (ci.name, b, norm(_enclosing_test(fn, r))[:90]))
+
+
+def _one_sided_builder_stores(run, prog):
+    """R2c: a builder leaves the derived state a function of the *current* configuration only.  A property of a persisting child object
+    (self.<child>.<attr>, the child itself not created in the builder) that is assigned under a configuration test on one side and not on
+    the other keeps, on that other side, whatever an earlier configuration put there."""
+    run.describe('C01-R2c', 'a builder assigns the properties of the persisting geometry on every path that continues (no value survives from an earlier configuration)')
+    from ..inline import flatten, class_lookup
+    n = 0
+    for q, spec in NODES.items():
+        ci = prog.cls(q)
+        for b in spec['builders']:
+            fn = prog.method(ci, b)
+            if fn is None:
+                continue
+            try:
+                fn = flatten(fn, class_lookup(prog, ci))
+            except Exception:
+                pass
+            created = {norm(st.targets[0]) for st in ast.walk(fn) if isinstance(st, ast.Assign) and len(st.targets) == 1
+                       and isinstance(st.value, ast.Call)}
+
+            def targets(stmts):
+                out = {}
+                for st in stmts:
+                    for x in ast.walk(st):
+                        if isinstance(x, ast.Assign):
+                            for t in x.targets:
+                                txt = norm(t)
+                                if txt.startswith('self.') and txt.count('.') >= 2 and isinstance(t, ast.Attribute) and norm(t.value) not in created:
+                                    out.setdefault(txt, x)
+                return out
+            unconditional = targets([st for st in fn.body if not isinstance(st, (ast.If, ast.For, ast.While, ast.Try))])
+            for iff in [x for x in ast.walk(fn) if isinstance(x, ast.If)]:
+                a, o = targets(iff.body), targets(iff.orelse)
+                for side, other, name_ in ((a, o, 'else'), (o, a, 'if')):
+                    other_stmts = iff.orelse if name_ == 'else' else iff.body
+                    if other_stmts and always_exits(other_stmts):
+                        continue
+                    for txt, st in side.items():
+                        if txt in other or txt in unconditional:
+                            continue
+                        # a loop variable's attribute (for child in ...: child.parent = None) is not a persisting child of self
+                        n += 1
+                        run.subject('C01-R2c')
+                        run.fail('C01-R2c', '%s|%s|%s|one-sided:%s' % (ci.mod.name, ci.name, b, txt), ci.mod.relpath, st.lineno,
+                                 "%s.%s assigns %s only when (%s) is %s; on the other path the value set by an earlier configuration stays, so the "
+                                 "result depends on the history of changes" % (ci.name, b, txt, norm(iff.test)[:50], 'true' if name_ == 'else' else 'false'))
+                for txt in set(a) & set(o):
+                    n += 1
+                    run.subject('C01-R2c')
+                    run.ok('C01-R2c', '%s.%s %s' % (ci.name, b, txt), 'assigned on both sides of (%s)' % norm(iff.test)[:40], sample=False)
+    run.floor('C01-R2c', 1)
 
 
 def _enclosing_test(fn, node):
